@@ -140,7 +140,7 @@ def calibrate(ck, pairs, verdicts):
       ck.calib(f"asymmetry_over_slack_{c['dt']}", o["asym"] / slack_of(c, d, o, base, k, u), 1.0)
     if c["method"] != "eigh" and c["rel"] and d["m"] > 0:
       ck.calib(f"lambda_hat_over_lambda_max_minus_1_{c['dt']}", max(0.0, o["lam"] / 10.0 ** c["c"] - 1),
-               2.0 ** -23 if c["dt"] == "f64" else 2.0 ** -23 + 1e-5)
+               2.0 ** -23 if c["dt"] == "f64" else 2.0 ** -23 + 1e-4)
     pi_ok = next(e for e in r["events"] if e["a"] == "Gate")["pi"]
     if c["dt"] == "f64" and o["fc"] == "below" and not d["allpad"] and "meas_raw" in o and pi_ok:
       base, k = selected(j, r)
@@ -225,7 +225,8 @@ def run(ck):
     mid = pairs[len(pairs) // 3]
     ck.sample({"recorded_trace": {"cfg": mid[0]["case"], "events": mid[1]["events"]}})
   if len(pairs) == len(jobs):  # vacuity control only makes sense on a tree that runs
-    for k in ("size1", "allpad", "padded", "accepted", "honest_clause_evaluated", "floor_active"):
+    for k in ("size1", "allpad", "padded", "accepted", "retried", "honest_clause_evaluated",
+              "honest_clause_sharp_slack_below_1e-6", "floor_active", "f32"):
       if tally[k] == 0:
         raise core.MachineryError(f"vacuous case slice: no '{k}' case among {len(pairs)} runs")
   selftests(ck, pairs, verdicts)
